@@ -19,3 +19,26 @@ package authmodel
 //@   ghost authErr error = nil
 //@   on call invoke Authenticator.Authenticate(_, _) ret (i, e): authOK = (e == nil && i != nil); authErr = e
 //@   before call invoke net/http.Handler.ServeHTTP(h, _, _): assert @inner_handler_only_after_authentication authOK || (authErr != nil && h == authErr)
+//@
+//@ func (*CertificateAuth).Authenticate
+//@   property C04
+//@   ghost matched *config.ClientConfig = nil
+//@   ghost matchedChain bool = false
+//@   ghost certsFromRequest bool = false
+//@   on call realip.PeerCertificates(r) ret (cs, e): certsFromRequest = (r == req && e == nil)
+//@   on call (*config.ClientConfig).Match(c2, cs) ret (m, e): matched = ite(m, c2, matched); matchedChain = ite(m, sameslice(cs, peerCerts), matchedChain)
+//@   loop 0 sig "for _, c2 := range a.Config.Clients" invariant client == nil && !useDN
+//@   ensures @identity_needs_a_presented_certificate ret1 == nil ==> certsFromRequest && len(peerCerts) >= 1
+//@   ensures @identity_is_a_configured_client ret1 == nil ==> client != nil && \
+//@        ((client == a.Config.Clients[encoded] && inmap(a.Config.Clients, encoded)) || (client == matched && matchedChain))
+//@   ensures @identity_type ret1 == nil ==> istype(ret0, *CertificateInfo)
+//@   ensures @roles_are_that_clients_roles ret1 == nil ==> sameslice(unbox(ret0, *CertificateInfo).Roles, client.Roles)
+//@   ensures @no_identity_on_error ret1 != nil ==> ret0 == nil
+//@
+//@ func formatSubject
+//@   property C04
+//@   modifies nothing
+//@
+//@ func fingerprint
+//@   property C04
+//@   modifies nothing
